@@ -7,6 +7,7 @@ import sys
 import tempfile
 
 import apel
+import cachewatch
 import clirun
 import common
 import jsonio
@@ -15,20 +16,39 @@ from common import Check, lean_batch, tb
 
 TRUSTED = ['Lean 4.33.0 kernel (+ leanchecker in the thorough tier)',
            'axioms: propext, Classical.choice, Quot.sound only (audited per theorem)',
-           'harness/c19.py + apel.py (history generator, fresh-interpreter oracle, cache inspection), Drv.lean protocol parsing',
+           'harness/c19.py + apel.py + cachewatch.py (history generator, fresh-interpreter oracle, recording table objects and import shim, '
+           're-import oracle), Drv.lean protocol parsing',
            'compiled driver peldrv agrees with the kernel reading of the same definitions']
-ASSUME = ['importlib / sys.modules are modelled as a deterministic environment; the caches of parse_user_data.py, src.py and osrc.py are the only '
-          'cross-decode state in the model -- state that a change might ADD is caught only by the history runs, not by the theorems',
+ASSUME = ['importlib / sys.modules are modelled as a deterministic environment (a module either imports, or fails in the same way every time); the '
+          'four module tables and the component-id table + flag are the only cross-decode state in the model -- state that a change might ADD is '
+          'caught only by the history runs, not by the theorems',
+          'the update rules of that state ARE in the model (udLookup, srcLookup, calloutLookup, osrcLookup, compIdLookup) and are compared with '
+          'the real dictionaries after every step; the files of the configuration directory are well-formed JSON (a file that does not parse '
+          'leaves the flag set and the table partly loaded: outside the model)',
           'the fresh-interpreter oracle is sampled (one subprocess per sampled step)']
 RULE = ('cases = histories of 2..30 decodes in ONE process mixing well-formed, damaged, filtered PELs, all creators / components, fixture parser '
-        'modules of every behaviour (echo, raise, raise ImportError, return None, a callout module that raises for one procedure), plugins '
+        'modules of every behaviour (echo, raise, raise ImportError, return None, a callout module that raises for one procedure; modules of all four '
+        'kinds that exist but fail while being imported: RuntimeError, ImportError, ModuleNotFoundError), scripted histories (the same module before '
+        'and after a failing call, failing imports retried, the hostboot parser reached directly and through the BMC wrapper in both orders, creators '
+        'with and without a component-id file in both orders), plugins '
         'toggled between steps, a message registry whose messages are filled from the hex words (every history has two PELs with the same reason '
-        'code and different words, and an entry that rejects the PEL); every step is compared with the stateless model, a sample with a fresh interpreter; the module caches are '
-        'inspected after every step; plus -a vs per-file -f and -a vs -a -r; non-trivial = a step preceded by a failing or plugin-raising '
-        'decode; distinct by (history prefix, bytes)')
-UD_FIX = {'x1111': ('echo',), 'x2222': ('raises', 'boom'), 'x3333': ('none',), 'x7777': ('raises_import', 'No module named frobnicate'), 'x8888': ('import_raises', 'load failure'), 'o1234': ('echo',)}
-SRC_FIX = {'xsrc': ('echo',), 'o8d00': ('echo',), 'oab00': ('raises_import',)}
-CO_FIX = {'x': ('table_raise', {'PROC0001': ['line one'], 'PROC0002': ['second']}, 'PROCBAD!')}
+        'code and different words, and an entry that rejects the PEL); every step is compared with the stateless model, a sample with a fresh interpreter; after '
+        'every step the real dictionaries (userDataParsers, srcParsers, calloutParsers, osrcParsers, componentIDs + flag) are compared with the '
+        'model of the update rules folded over the ordered look-ups the code performed since the process started, and every entry is re-imported; '
+        'the component-id loader on generated configuration directories; plus -a vs per-file -f and -a vs -a -r; non-trivial = a step preceded by '
+        'a failing or plugin-raising decode; distinct by (history prefix, bytes)')
+UD_FIX = {'x1111': ('echo',), 'x2222': ('raises', 'boom'), 'x3333': ('none',), 'x7777': ('raises_import', 'No module named frobnicate'), 'x8888': ('import_raises', 'load failure'), 'o1234': ('echo',),
+          'x9999': ('import_error', 'cannot import name frobnicate'), 'x6666': ('import_mnf',)}
+# SRC parsers by creator (x: fine, w: the call raises, y / v / u: the import fails) and the component parsers behind the BMC wrapper
+# (8D fine, AB: the call raises ImportError, 7A / 78 / 66: the import fails, anything else: not there; BD..77.. is rejected by the registry); the hostboot parser `bsrc` is
+# reached by SRC.parse (creator B) and by the wrapper (creator O, BC codes): two tables with different rules for the same module
+SRC_FIX = {'xsrc': ('echo',), 'wsrc': ('raises',), 'ysrc': ('import_raises', 'no data file'), 'vsrc': ('import_error', 'cannot import name q'), 'usrc': ('import_mnf',),
+           'o8d00': ('echo',), 'oab00': ('raises_import',), 'o7a00': ('import_raises', 'no data file'), 'o7800': ('import_error', 'cannot import name q'),
+           'o6600': ('import_mnf',), 'bsrc': ('import_raises', 'no hostboot data')}
+CO_FIX = {'x': ('table_raise', {'PROC0001': ['line one'], 'PROC0002': ['second']}, 'PROCBAD!'), 'w': ('raises',), 'y': ('import_raises', 'no table'),
+          'v': ('import_error', 'cannot import name t'), 'u': ('import_mnf',)}
+CREATORS = 'xxxxOOOBMHwyvu'
+COMPONENTS = [b'8D', b'8D', b'AB', b'77', b'7A', b'7A', b'78', b'66', b'99']
 # message registry: the message of an SRC is built from that SRC's own hex words (two PELs with the same reason code and
 # different words must not see each other's words); the third entry has too few argument sources and rejects the PEL
 REG_FIX = [{'SRC': {'ReasonCode': '0x8D34', 'Words6To9': {'6': {'Description': 'first word', 'AdditionalDataPropSource': 'W6'}}},
@@ -55,20 +75,20 @@ finally:
 
 def gen_step(rng):
     p = apel.gen_pel(rng, max_sections=0)
-    p['ph']['creator'] = ord(rng.choice('xxxOOBMH'))
+    p['ph']['creator'] = ord(rng.choice(CREATORS))
     secs = []
     for _ in range(rng.choice([1, 2, 3])):
         k = rng.choice(['ud', 'ud', 'ed', 'src'])
         if k == 'src':
             sec = {'kind': 'src', 'hdr': apel.gen_hdr(rng), 'primary': True, 'src': apel.gen_src(rng)}
-            sec['src']['ascii'] = (rng.choice([b'BD', b'BC']) + b'12' + rng.choice([b'8D', b'AB', b'77']) + b'34').ljust(32, b' ')
+            sec['src']['ascii'] = (rng.choice([b'BD', b'BD', b'BC']) + b'12' + rng.choice(COMPONENTS) + b'34').ljust(32, b' ')
             if sec['src']['callouts']:
                 for c in sec['src']['callouts']['callouts']:
                     if c['fru']['flags'] & 0x0A:
                         c['fru']['pn'] = rng.choice([b'PROC0001', b'PROC0002', b'PROCBAD!', b'PROCBAD!', b'BMC0001\0'])
         else:
             sec = {'kind': k, 'hdr': apel.gen_hdr(rng), 'payload': apel.gen_payload(rng)[:200]}
-            sec['hdr']['comp'] = rng.choice([0x1111, 0x2222, 0x3333, 0x7777, 0x7777, 0x8888, 0x1234, 0x2000, 0x4444])
+            sec['hdr']['comp'] = rng.choice([0x1111, 0x2222, 0x3333, 0x7777, 0x7777, 0x8888, 0x8888, 0x9999, 0x6666, 0x1234, 0x2000, 0x4444])
             if k == 'ed':
                 sec.update(creator=ord(rng.choice('xxO')), resv1=0, resv2=0)
         secs.append(sec)
@@ -101,25 +121,159 @@ def reg_pair(rng):
     return out
 
 
-def cache_coherent(env_fix):
-    from pel.peltool import parse_user_data, src
-    bad = []
-    for name, mod in parse_user_data.userDataParsers.items():
-        short = name.split('.')[1]
-        exists = short in UD_FIX or short in ('m2c00', 'oe500')
-        if (mod is None) == exists:
-            bad.append(name)
-    for name, mod in src.calloutParsers.items():
-        short = name.split('.')[1]
-        exists = short in ('xcallouts', 'ocallouts')
-        if (mod is None) == exists:
-            bad.append(name)
-    for name, mod in src.srcParsers.items():
-        short = name.split('.')[1]
-        exists = short in ('xsrc', 'osrc', 'o8d00', 'oab00')
-        if (mod is None) == exists:
-            bad.append(name)
-    return bad
+# ---- scripted histories: the patterns the update rules are about, in a fixed order
+
+def mk_pel(rng, creator, secs):
+    p = apel.gen_pel(rng, max_sections=0)
+    p['ph']['creator'] = ord(creator)
+    p['sections'] = secs
+    apel.fix_real_plugins(p)
+    return apel.enc_pel(p)
+
+
+def ud_sec(rng, comp, payload=b'payload'):
+    h = apel.gen_hdr(rng)
+    h['comp'] = comp
+    return {'kind': 'ud', 'hdr': h, 'payload': payload}
+
+
+def ed_sec(rng, creator, comp, payload=b'payload'):
+    h = apel.gen_hdr(rng)
+    h['comp'] = comp
+    return {'kind': 'ed', 'hdr': h, 'payload': payload, 'creator': ord(creator), 'resv1': 0, 'resv2': 0}
+
+
+def src_sec(rng, refcode, procs=()):
+    x = apel.gen_src(rng)
+    x['ascii'] = refcode.ljust(32, b' ')
+    x['wordCount'] = 9
+    x['callouts'] = None
+    if procs:
+        x['callouts'] = {'subId': 0xC0, 'subFlags': 0, 'callouts': [
+            {'flags': 0, 'priority': 0x48, 'loc': b'', 'fru': {'flags': 0x12, 'pn': pn, 'ccin': b'', 'sn': b''}, 'pce': None, 'mru': None} for pn in procs]}
+    return {'kind': 'src', 'hdr': apel.gen_hdr(rng), 'primary': True, 'src': x}
+
+
+def scripted(rng):
+    """[(name, steps)]; a step = (bytes, cfg, plugins allowed)"""
+    E = {'every': 1}
+
+    def st(creator, *secs, allow=True):
+        return (mk_pel(rng, creator, list(secs)), E, allow)
+    out = []
+    # the same module before and after a failing CALL: user data (Exception, ImportError), SRC, callouts (one procedure, every procedure)
+    out.append(('failing calls', [
+        st('x', ud_sec(rng, 0x2222)), st('x', ud_sec(rng, 0x2222)), st('x', ud_sec(rng, 0x7777)), st('x', ud_sec(rng, 0x7777), ud_sec(rng, 0x1111)),
+        st('x', ud_sec(rng, 0x3333)), st('x', ud_sec(rng, 0x7777), allow=False), st('x', ud_sec(rng, 0x7777)),
+        st('w', src_sec(rng, b'BD128D34')), st('w', src_sec(rng, b'BD128D34')), st('x', src_sec(rng, b'BD128D34')),
+        st('O', src_sec(rng, b'BD12AB34')), st('O', src_sec(rng, b'BD12AB34')), st('O', src_sec(rng, b'BD128D34')),
+        st('x', src_sec(rng, b'BD129934', [b'PROC0001', b'PROCBAD!', b'PROC0002'])), st('x', src_sec(rng, b'BD129934', [b'PROCBAD!'])),
+        st('x', src_sec(rng, b'BD129934', [b'PROC0001'])), st('w', src_sec(rng, b'BD129934', [b'PROC0001'])), st('w', src_sec(rng, b'BD129934', [b'PROC0002'])),
+        st('O', src_sec(rng, b'BD129934', [b'BMC0001\0'])), st('O', src_sec(rng, b'BD129934', [b'BMC0001\0']))]))
+    # failing IMPORTS retried: every kind of failure at every site; modules that are not there
+    out.append(('failing imports', [
+        st('x', ud_sec(rng, 0x8888)), st('x', ud_sec(rng, 0x8888), ud_sec(rng, 0x8888)), st('x', ud_sec(rng, 0x9999)), st('x', ud_sec(rng, 0x9999)),
+        st('x', ud_sec(rng, 0x6666)), st('x', ud_sec(rng, 0x6666)), st('x', ud_sec(rng, 0x4444)), st('x', ud_sec(rng, 0x4444), ud_sec(rng, 0x8888)),
+        st('M', ed_sec(rng, 'x', 0x8888), ed_sec(rng, 'O', 0x1234), ed_sec(rng, 'x', 0x8888)),
+        st('y', src_sec(rng, b'BD128D34', [b'PROC0001'])), st('y', src_sec(rng, b'BD128D34', [b'PROC0001'])),
+        st('v', src_sec(rng, b'BD128D34', [b'PROC0001'])), st('v', src_sec(rng, b'BD128D34', [b'PROC0001'])),
+        st('u', src_sec(rng, b'BD128D34', [b'PROC0001'])), st('u', src_sec(rng, b'BD128D34', [b'PROC0001'])),
+        st('q', src_sec(rng, b'BD128D34', [b'PROC0001'])), st('q', src_sec(rng, b'BD128D34', [b'PROC0001'])),
+        st('O', src_sec(rng, b'BD127A34')), st('O', src_sec(rng, b'BD127A34')), st('O', src_sec(rng, b'BD127834')), st('O', src_sec(rng, b'BD127834')),
+        st('O', src_sec(rng, b'BD126634')), st('O', src_sec(rng, b'BD126634')), st('O', src_sec(rng, b'BD129934')), st('O', src_sec(rng, b'BD129934')),
+        st('O', src_sec(rng, b'BD128D34')), st('O', src_sec(rng, b'BD127A34'))]))
+    # the hostboot parser (its import fails): directly and through the BMC wrapper, in both orders
+    out.append(('bsrc, wrapper first', [st('O', src_sec(rng, b'BC12AB34')), st('B', src_sec(rng, b'BC12AB34')), st('O', src_sec(rng, b'BC12AB34')),
+                                        st('B', src_sec(rng, b'BC12AB34'))]))
+    out.append(('bsrc, direct first', [st('B', src_sec(rng, b'BC12AB34')), st('O', src_sec(rng, b'BC12AB34')), st('B', src_sec(rng, b'BC12AB34')),
+                                       st('O', src_sec(rng, b'BC12AB34'))]))
+    # creators with and without a component-id file, in both orders (H = PHYP: the table is not consulted)
+    out.append(('component ids, without first', [st('x', ud_sec(rng, 0x1111)), st('H', ud_sec(rng, 0x4142)), st('O', ud_sec(rng, 0x1234)), st('B', ud_sec(rng, 0x2222)),
+                                                 st('x', ud_sec(rng, 0x1111)), st('O', ud_sec(rng, 0x1111))]))
+    out.append(('component ids, with first', [st('O', ud_sec(rng, 0x1234)), st('x', ud_sec(rng, 0x1111)), st('B', ud_sec(rng, 0x2222)), st('H', ud_sec(rng, 0x4142)),
+                                              st('O', ud_sec(rng, 0x1111)), st('x', ud_sec(rng, 0x1111))]))
+    return out
+
+
+def conf_dir_listing():
+    """the configuration directory as the code finds it: [(file name, the JSON object of a component-id file)] in os.listdir order, or None"""
+    from pel.peltool import comp_id
+    root = comp_id.pelConfigRootPath
+    if not os.path.exists(root):
+        return None
+    out = []
+    for name in os.listdir(root):
+        table = {}
+        if '_component_ids.json' in name:
+            with open(os.path.join(root, name)) as f:
+                table = json.load(f)
+        out.append((name, table))
+    return out
+
+
+def note_patterns(ck, events, seen):
+    """which of the situations the rules are about did this step contain (seen: (site, key) -> what the table held when last asked)"""
+    pend = None
+    for e in events:
+        if e[0] == 'lookup' and e[1] != 'compid':
+            key = (e[1], e[2])
+            if e[3]:
+                ck.count('look-ups answered from a table (%s)' % e[1])
+            elif key in seen:
+                ck.count('failing imports retried, nothing had been stored (%s)' % e[1])
+            seen[key] = e[3]
+        elif e[0] == 'lookup':
+            ck.count('componentIDs asked: %s' % ('filled' if e[3] else 'empty'))
+
+
+# ---- the component-id loader on generated configuration directories
+
+CONF_NAMES = ['O_component_ids.json', 'B_component_ids.json', 'x_component_ids.json', 'O_component_ids.json.bak', 'O_component_ids.json.orig',
+              'x_component_ids.json_component_ids.json', '_component_ids.json', 'component_ids.json', 'Q_component_ids.jsonl', 'message_registry.json',
+              'README', 'OO_component_ids.json', 'B_component_ids.JSON', 'O_component_ids.jso']
+
+
+def check_loader(ck, rng, n):
+    from pel.peltool import comp_id
+    watch = cachewatch.Watch().install()
+    tmp = tempfile.mkdtemp(prefix='c19conf_')
+    try:
+        for k in range(n):
+            root = os.path.join(tmp, 'd%d' % k)
+            kind = rng.choice(['files', 'files', 'files', 'empty', 'missing'])
+            if kind != 'missing':
+                os.makedirs(root)
+            if kind == 'files':
+                for name in rng.sample(CONF_NAMES, rng.randrange(1, 8)):
+                    with open(os.path.join(root, name), 'w') as f:
+                        json.dump({'%04X' % rng.choice([0x2000, 0x1234, 0x1111, rng.randrange(65536)]): 'n%d' % rng.randrange(1000) for _ in range(rng.randrange(0, 4))}, f)
+            comp_id.pelConfigRootPath = root
+            apel.reset_comp_ids()
+            watch.rewatch_comp_ids()
+            watch.take()
+            conf = conf_dir_listing()
+            env_tok = cachewatch.env_tokens({}, {}, {}, conf)
+            lookups = []
+            calls = [(rng.choice([0x2000, 0x1234, 0x4142, 0]), rng.choice('OBxHQ')) for _ in range(rng.choice([1, 2, 3]))]
+            reqs, reals = [], []
+            import io
+            from contextlib import redirect_stderr
+            for comp, creator in calls:
+                with redirect_stderr(io.StringIO()):
+                    comp_id.getDisplayCompID(comp, creator)
+                lookups += cachewatch.lookups_of(watch.take())
+                reqs.append(cachewatch.request(env_tok, lookups))
+                reals.append(watch.tables())
+            for (comp, creator), real, rep in zip(calls, reals, lean_batch(reqs)):
+                model = cachewatch.parse_tables(rep)
+                ck.case(key=('conf', kind, tuple(sorted((a, tuple(sorted(b.items()))) for a, b in (conf or []))), creator))
+                ck.count('component-id loader: directory %s' % kind)
+                d = cachewatch.diff_tables(real, model)
+                if d:
+                    ck.disagree('the component-id table differs from the model of the loader', {'op': 'conf-dir', 'files': conf, 'calls': calls, 'differences': d})
+    finally:
+        watch.uninstall()
+        shutil.rmtree(tmp, ignore_errors=True)
 
 
 def run(tier, seed):
@@ -136,6 +290,7 @@ def run(tier, seed):
     env_on = apel.PluginEnv(allow=True, ud=UD_FIX, src=SRC_FIX, callout=CO_FIX, registry=REG_FIX, comp_ids=COMP_IDS)
     env_off = apel.PluginEnv(allow=False, ud=UD_FIX, src=SRC_FIX, callout=CO_FIX, registry=REG_FIX, comp_ids=COMP_IDS)
     try:
+        histories = [(name, steps) for name, steps in scripted(rng)]
         for hnum in range(30 if thorough else 8):
             steps = [gen_step(rng) for _ in range(rng.choice([2, 5, 12, 30]))]
             for st in reg_pair(rng):   # same reason code, different hex words, somewhere in the history
@@ -143,6 +298,9 @@ def run(tier, seed):
             if rng.random() < 0.5:   # repeat an earlier input later in the history
                 steps.append(steps[0])
                 steps.insert(rng.randrange(len(steps)), steps[-2])
+            histories.append(('generated', steps))
+        for hnum, (hname, steps) in enumerate(histories):
+            ck.count('histories: ' + hname)
             # the model is stateless: one request per step, grouped by plugin setting
             replies = {}
             for allow, e in ((True, env_on), (False, env_off)):
@@ -150,10 +308,16 @@ def run(tier, seed):
                 rep = lean_batch([e.tokens()] + ['pelraw %s %s' % (apel.tok_cfg(steps[i][1]), tb(steps[i][0])) for i in idx])[1:]
                 replies.update(dict(zip(idx, rep)))
             env_on.install()          # ONE process, caches are NOT reset between the steps
+            watch = cachewatch.Watch().install()
             try:
                 bad_before = False
+                # the model of the update rules: import system + configuration directory as this process finds them, and the look-ups so far
+                caches_env = cachewatch.env_tokens(UD_FIX, SRC_FIX, CO_FIX, conf_dir_listing())
+                lookups, table_reqs, table_real, verified, seen = [], [], [], set(), {}
                 for i, (data, cfg, allow) in enumerate(steps):
+                    watch.take()
                     real = apel.real_decode(data, cfg, allow_plugins=allow)
+                    events = watch.take()
                     model = apel.dec_outcome(replies[i])
                     ck.case(key=(hnum, i, data) if bad_before else None, sample={'history': hnum, 'step': i, 'outcome': real[0], 'plugins': allow} if i < 2 else None)
                     ck.count('step outcome %s' % real[0])
@@ -178,13 +342,37 @@ def run(tier, seed):
                         ck.count('fresh-interpreter comparisons')
                         if fr != json.loads(json.dumps(real[:3])):
                             ck.fail('the result of a decode depends on what was decoded before it', rp | {'in_history': str(real[:3])[:300], 'fresh': str(fr)[:300]}, 'history_dependence')
-                    bad = cache_coherent(None)
+                    # the tables after this step: (1) the record is sane, (2) direct oracle: every entry is what importing its module
+                    # gives, (3) the real dictionaries against the model's rules for the same ordered look-ups (asked in one batch below)
+                    bad = cachewatch.record_problems(events)
+                    if bad:
+                        ck.disagree('a module was imported without its table being asked first, or a missing key was not imported', rp | {'record': bad[:5]})
+                    note_patterns(ck, events, seen)
+                    lookups = lookups + cachewatch.lookups_of(events)
+                    table_reqs.append(cachewatch.request(caches_env, lookups))
+                    table_real.append(watch.tables())
+                    bad = cachewatch.entries_not_import_results(watch, verified)
                     if bad:
                         ck.fail('a module cache holds an entry that is not the result of importing the module', rp | {'entries': bad}, 'cache_incoherent')
                     if real[0] != 'doc':
                         bad_before = True
+                for i, (treal, rep) in enumerate(zip(table_real, lean_batch(table_reqs))):
+                    d = cachewatch.diff_tables(treal, cachewatch.parse_tables(rep))
+                    ck.count('table states compared with the model of the update rules')
+                    if d:
+                        ck.disagree('the module tables differ from the model of the update rules',
+                                    {'op': 'history', 'history': [(x.hex(), c, a) for x, c, a in steps[:i + 1]], 'step': i, 'differences': d[:8],
+                                     'lookups': [list(l) for l in (lookups[:200])]})
+                        break
             finally:
+                watch.uninstall()
                 env_on.uninstall()
+        # ---- the component-id loader against the model on generated configuration directories
+        env_on.install()
+        try:
+            check_loader(ck, rng, 60 if thorough else 15)
+        finally:
+            env_on.uninstall()
         # ---- directory order: -a vs per-file -f, -a vs -a -r
         env_on.install()
         try:
